@@ -69,6 +69,35 @@ def save_check(ctx, t, fails, where):
             fails.append((sig, "document %d (%s): %s" % (d, label, diff[1]), case))
 
 
+def argument_forms():
+    """extend(iterator), extended slices: compared with a plain list directly"""
+    out = []
+    w = T.build(("flat", "RGB", 8))
+    psd, a, b = w.objs[0], w.objs[4], T._px(w.objs[0], "RGB", "it2", 1, 1)
+    plain = list(psd._layers)
+    psd.extend(x for x in [a, b])
+    plain.extend(x for x in [a, b])
+    bad = [id(x) for x in psd._layers] != [id(x) for x in plain]
+    out.append(("C09/extend/iterator-consumed-by-check",
+                "psd.extend(generator) lists %d layers, a plain list %d" % (len(psd._layers), len(plain)) if bad else None,
+                {"call": "psd.extend(x for x in [a, b])"}))
+    w = T.build(("flat", "RGB", 8))
+    psd = w.objs[0]
+    plain = list(psd._layers)
+    for name, f in (("del [::2]", lambda l: l.__delitem__(slice(None, None, 2))),
+                    ("reversed slice read", lambda l: l[::-1])):
+        try:
+            r1 = f(psd)
+            r2 = f(plain)
+            bad = [id(x) for x in psd._layers] != [id(x) for x in plain] or \
+                ([id(x) for x in r1] != [id(x) for x in r2] if r1 is not None else False)
+        except Exception as e:  # noqa
+            bad = True
+        out.append(("C09/extended-slice/%s" % name.split()[0], "psd %s differs from a plain list" % name if bad else None,
+                    {"call": name}))
+    return out
+
+
 def run(ctx: core.Run):
     ctx.prove(["PsdVerif.Props.C09"])
     ctx.trusted_base += T.TRUSTED
@@ -116,6 +145,11 @@ def run(ctx: core.Run):
         seen.add(sig)
         ctx.fail(sig, what, case, observed=what, expected="the reopened tree has the same names, kinds, nesting, order, "
                  "attributes and channel payloads")
+    # arguments the operation language cannot express: one-shot iterables, slices with a step
+    for sig, what, case in argument_forms():
+        ctx.count(("form", sig), nontrivial=True)
+        if what:
+            ctx.fail(sig, what, case, observed=what, expected="the same result as on a plain list")
     ctx.extra["save_reopen_checked"] = len(chosen)
     for t in traces[:n_corpus] + traces[-3:]:
         ctx.sample({"recipe": list(t.world.recipe), "ops": [T.op_str(o) for o in t.ops[:8]], "outs": t.outs[:8]})
